@@ -300,6 +300,26 @@ def ready_state_stores(ctx: Ctx, rule: str):
                     # ... and only while the exchange is pending: the gate lets CER/CEA through in
                     # every later state too (READY, WAITING_DWA, DISCONNECTING)
                     CONNECTED = model.fold_name(peer_mod, "PEER_CONNECTED")
+                    # the guard may sit in the helpers themselves (then every caller is covered)
+                    hp = [a.arg for a in f.node.args.args]
+                    hconn = hp[1] if len(hp) > 1 else "conn"
+                    in_helper = (f"{hconn}.state", "==", CONNECTED, True) in facts
+                    asg = f.cls.methods.get("_assign_peer_connection") if f.cls else None
+                    if in_helper and asg is not None:
+                        ga_ = cfg_of(asg)
+                        ata = Atomizer(model, asg.module, asg.cls)
+                        ap_ = [a.arg for a in asg.node.args.args]
+                        aconn = ap_[1] if len(ap_) > 1 else "conn"
+                        for x in ga_.nodes:
+                            if x.kind == "stmt" and any(
+                                    isinstance(t, ast.Attribute) and t.attr in ("connection", "disconnect_reason")
+                                    for t in x.stores()):
+                                if (f"{aconn}.state", "==", CONNECTED, True) not in must_facts(ga_, ata, x):
+                                    in_helper = False
+                    cons_h = f"{f.cls.name if f.cls else ''}._flag_connection_as_ready/_assign_peer_connection:only-when-CONNECTED"
+                    ctx.inst(cons_h, sample={"guard_in_helpers": in_helper})
+                    if in_helper:
+                        continue
                     for c in callers:
                         if c.func.name not in ("receive_cer", "receive_cea"):
                             continue
